@@ -102,6 +102,12 @@ func main() {
 		// instantiation of MonadChainK/Future/Try with all its methods and the second set would
 		// double the compile time; their behaviour is executed in the int instantiation
 		r.Extra["distinct_instantiation_typechecked_only"] = typecheckedOnlyD
+		r.Extra["nil_instantiation_not_applied"] = []string{
+			"future ApplicativeN/ChainN builders and their methods (a third set of builder instantiations costs more compile time than the budget allows; option and try builders have it)",
+			"MonadChainN.HListMap/HListFlatMap (the accumulated hlist has unexported fields: nilable components cannot be described)",
+			"try.PtrN / try.CurriedPtrN (documented: a nil result is a failure)",
+			"families outside option/try/future (no effect type that could swallow a nil)",
+		}
 		r.Extra["bounds"] = map[string]any{
 			"arity": "every arity at which a member exists in the scanned tree (no bound other than the library's own limits)",
 			"instantiations": []string{"distinct (P1..P21 / L1..L21)", "int (one shared type, position tags 100*i+k)",
